@@ -1,6 +1,7 @@
 /-
-C12 — property theorems (only). Model: `HydroVerif/Model/C12.lean`; invariants (`VecOk`, `WorldOk`) and
-helper lemmas: `HydroVerif/Lemmas/C12.lean`.
+C12 — property theorems (only). Model: `HydroVerif/Model/C12.lean` (Vector, Transform state) and
+`HydroVerif/Model/C12T.lean` (the 13 transform classes, `get_transform`, histories over several instances); invariants
+(`VecOk`, `WorldOk`, `MOk`, `EpsOk`) and helper lemmas: `HydroVerif/Lemmas/C12.lean`, `HydroVerif/Lemmas/C12T.lean`.
 
 The state machine: a `World` = an array store + the list of live vectors; `step` applies one operation to the
 `k`-th vector; `run` folds a whole history. `step` has a case for EVERY public entry point of `Vector`:
@@ -9,44 +10,64 @@ The state machine: a `World` = an array store + the list of live vectors; `step`
   copies     `clone`, `dictRT` (`from_dict(to_dict())`), `pyCopy` (`copy.deepcopy` / `pickle`: external protocol,
              rejected on the pinned class, a deep copy when it works)
   accessors  `getKey` (`v["a"]`), `getAttr` (`v.a`), `read` (`to_dict`, `to_series`, `str`, all property getters)
-  constructor `init` (all argument combinations given / omitted), and for transforms `tinit` / `tstep`.
+  constructor `init` (all argument combinations given / omitted)
+and for transforms: `tinit` (from given vector specs) / `cinit` (from the CLASS and its constructor keywords: the model's
+own table `classSpecs` of names, defaults, bounds, flags, inner BoxCox2 and guards) / `getTransform`; `tstep` (forward,
+backward, jacobian, sample, logprior, print, item / attribute reads, item / attribute / whole-vector assignments, reset);
+`mstepC` / `mrun` (constructions by class and operations on any of several live instances).
 Values are `XR α` (NaN, ±∞, finite `α`); the theorems hold for every linearly ordered `α` (the driver runs
-`α = Float`), the ones about the `EPS` margin for every linearly ordered additive group and every `0 ≤ eps`.
+`α = Float`). The `EPS` margin enters only through `EpsOk eps` (`a - eps ≤ a ≤ a + eps`): true in every ordered additive
+group for `0 ≤ eps` AND under any monotone rounding of `+` / `-` (`epsOk_of_rounding`), hence of float arithmetic.
 
 CLAUSE → THEOREMS (what stays outside)
- 1 values always within bounds, any history ............ init_ok, step_ok, run_ok, worldOk_view_ok,
-                                                          values_within_bounds_always        (—)
+ 1 values always within bounds, any history ............ init_ok, init_view, step_ok, run_ok, worldOk_view_ok,
+                                                          values_within_bounds_always; every transform class: cinit_ok
+                                                          (hypothesis "bounds NaN-free" = the quantifier's "finite or
+                                                          infinite bounds": NEEDED — nanFree_bounds_needed; DISCHARGED for
+                                                          the classes from their own NaN guard — cinit_ok)
  2 NaN stored only when explicitly allowed .............. same invariant (`valuesOk`), failing_assignments_rejected (—)
  3 a rejected assignment leaves the state untouched ..... rejected_identity (no hypothesis; the SAME world is
-                                                          returned), tstep_rejected_identity; which assignments are
-                                                          rejected: failing_assignments_rejected, accessors_identity
+                                                          returned), tstep_rejected_identity, mstepC_ok (a rejected
+                                                          construction); which assignments are rejected:
+                                                          failing_assignments_rejected, accessors_identity
                                                           (exception class / message text: not modelled)
- 4 names, bounds, defaults never change ................. step_frozen, run_frozen, tstep_frozen
+ 4 names, bounds, defaults never change ................. step_frozen, run_frozen, tstep_frozen, trun_frozen,
+                                                          getTransform_ok
                                                           (names are an immutable list in the model: no entry point
                                                           writes `_names`; in-place edits by the CALLER through the
                                                           aliased getters are outside the operation set)
  5 hit flag == latest assignment was clipped ............ setAttr_hit_exact, setAll_hit_exact, reset_exact,
                                                           step_setAttr_exact, step_setAll_exact, step_reset_exact,
-                                                          whole_assignment_exact_always
+                                                          whole_assignment_exact_always, attr_assignment_exact_always,
+                                                          reset_exact_always; under rounded arithmetic:
+                                                          epsOk_of_nonneg, epsOk_of_rounding, setAll_hit_exact_rounded
                                                           (flag is maintained only when check_hitbounds: theorems state
                                                           hit = check_hitbounds ∧ clipped; inside the (0, EPS] margin
                                                           the two code paths differ: excluded by the property's own
-                                                          conditioning = hypothesis `inRegion`)
+                                                          conditioning = hypothesis `inRegion`, NEEDED: inRegion_needed)
  6 clones / dict round-trips = full state, independent .. clone_spec, dictRT_spec, toDict_faithful, copies_exact_always,
-                                                          pyCopy_spec, storage_disjoint_always, step_frame,
-                                                          spawn_keeps_all                      (—)
+                                                          copies_exact_rounded, pyCopy_spec, storage_disjoint_always,
+                                                          step_frame, spawn_keeps_all            (—)
  7 read-only transform uses keep params/constants/bounds  readonly_preserves, readonly_preserves_always, tstep_ok,
-                                                          trun_ok, tinit_ok, add_ok, tstep_frozen; several live
-                                                          instances (independent objects, fresh instance at its
-                                                          defaults): tstep_frame, mstep_ok, mstep_independent,
-                                                          mstep_readonly, madd_spec
-                                                          (which class performs which inner write is a 4-way table
-                                                          `TKind` checked by the correspondence; numerical results of
-                                                          forward/backward/jacobian are C01/C02)
+                                                          trun_ok, trun_frozen, tinit_ok, add_ok, tstep_frozen;
+                                                          BY CLASS, no hypothesis: cinit_ok, class_table_coherent,
+                                                          class_readonly_always, getTransform_ok,
+                                                          getTransform_readonly_always; several live instances
+                                                          (independent objects, fresh instance at its defaults):
+                                                          tstep_frame, mstep_ok, mstep_independent, mstep_readonly,
+                                                          madd_spec, maddC_spec, mstepC_ok, mrun_ok,
+                                                          instances_independent_always, emptyM_ok; noname_inert (the
+                                                          shared default `Vector([])` of `Transform.__init__` cannot be
+                                                          told from one empty vector per instance)
+                                                          (numerical results of forward/backward/jacobian are C01/C02;
+                                                          the class table is tied to the code by the correspondence:
+                                                          the harness names only the class and the keywords)
  quantifier: 0..4 names (any length here), finite/infinite bounds (hypothesis: NaN-free bounds), all flags, all
- histories (induction over `List Op`), every transform class (via `TKind`), all interleavings (`List TOp`).
+ histories (induction over `List Op`), every transform class (`TClass`, all constructor arguments), all interleavings
+ (`List TOp`), all multi-instance histories (`List MOp`).
 -/
 import HydroVerif.Lemmas.C12
+import HydroVerif.Lemmas.C12T
 import Mathlib.Algebra.Order.Group.Int
 
 set_option linter.unusedSectionVars false
@@ -300,7 +321,7 @@ end order
 
 /-! ### the hit flag tells exactly whether the latest assignment was clipped -/
 section hit
-variable {α : Type} [LinearOrder α] [AddCommGroup α] [IsOrderedAddMonoid α]
+variable {α : Type} [LinearOrder α] [Add α] [Sub α] [OfNat α 0]
 
 /-- set by attribute / by key on element `i` (known name, accepted): element `i` becomes the assigned value
 moved to the nearest bound, nothing else moves, and the flag is set iff hit checking is on and the stored
@@ -336,7 +357,7 @@ theorem setAttr_hit_exact {s s' : Store α} {v v' : Vec} (h : VecOk s v) (nm : S
 /-- whole-vector assignment (accepted) with every assigned value inside/on the bounds, NaN, or more than EPS
 outside: the new values are the assigned values clipped element-wise into a FRESH array, and the flag is set
 iff hit checking is on and some stored value differs from the assigned one -/
-theorem setAll_hit_exact {eps : α} (heps : 0 ≤ eps) {s s' : Store α} {v v' : Vec} (h : VecOk s v)
+theorem setAll_hit_exact {eps : α} (heps : EpsOk eps) {s s' : Store α} {v v' : Vec} (h : VecOk s v)
     (xs : List (XR α)) (e : setAll eps s v xs = ((s', v'), .ok))
     (hr : all3 (XR.inRegion eps) xs (s.cells v.mins) (s.cells v.maxs) = true) :
     s'.cells v'.values = clipAll xs (s.cells v.mins) (s.cells v.maxs)
@@ -353,7 +374,7 @@ theorem setAll_hit_exact {eps : α} (heps : 0 ≤ eps) {s s' : Store α} {v v' :
     simp only [alloc_ref, alloc_cells_new, Bool.and_eq_true, hh]
 
 /-- reset = assignment of the defaults: never clipped, so the flag is off afterwards and values = defaults -/
-theorem reset_exact {eps : α} (heps : 0 ≤ eps) {s : Store α} {v : Vec} (h : VecOk s v) :
+theorem reset_exact {eps : α} (heps : EpsOk eps) {s : Store α} {v : Vec} (h : VecOk s v) :
     ∃ s' v', reset eps s v = ((s', v'), .ok) ∧ s'.cells v'.values = s.cells v.defaults ∧ v'.hit = false
       ∧ s.next ≤ v'.values := by
   have hn := valuesOk_nan_an v.acceptNan _ _ _ h.defaults_ok (by rw [h.len_defaults, h.len_mins])
@@ -372,7 +393,7 @@ theorem reset_exact {eps : α} (heps : 0 ≤ eps) {s : Store α} {v : Vec} (h : 
   · simp
 
 /-- the same facts read on the state machine: `step` with a whole-vector assignment that is accepted -/
-theorem step_setAll_exact {eps : α} (heps : 0 ≤ eps) (w : World α) (hw : WorldOk w) (k : Nat) (xs : List (XR α))
+theorem step_setAll_exact {eps : α} (heps : EpsOk eps) (w : World α) (hw : WorldOk w) (k : Nat) (xs : List (XR α))
     (vw : View α) (hv : w.view k = some vw) (hacc : (step eps w (.setAll k xs)).2 = .ok)
     (hr : all3 (XR.inRegion eps) xs vw.mins vw.maxs = true) :
     ∃ vw', (step eps w (.setAll k xs)).1.view k = some vw'
@@ -430,7 +451,7 @@ theorem step_setAttr_exact (eps : α) (w : World α) (hw : WorldOk w) (k : Nat) 
       simp [World.view, hklt]
 
 /-- `step` with a reset: always accepted on a well-formed world; values become the defaults, the flag is off -/
-theorem step_reset_exact {eps : α} (heps : 0 ≤ eps) (w : World α) (hw : WorldOk w) (k : Nat) (vw : View α)
+theorem step_reset_exact {eps : α} (heps : EpsOk eps) (w : World α) (hw : WorldOk w) (k : Nat) (vw : View α)
     (hv : w.view k = some vw) :
     (step eps w (.reset k)).2 = .ok
       ∧ ∃ vw', (step eps w (.reset k)).1.view k = some vw' ∧ vw'.values = vw.defaults ∧ vw'.hit = false := by
@@ -452,7 +473,7 @@ theorem step_reset_exact {eps : α} (heps : 0 ≤ eps) (w : World α) (hw : Worl
 /-- HIT FLAG, ALL HISTORIES: from any constructed vector, after ANY history, an accepted whole-vector assignment
 (values inside / on the bounds, NaN, or more than EPS outside) stores the element-wise clipped values and sets the
 flag iff hit checking is on and something was clipped -/
-theorem whole_assignment_exact_always {eps : α} (heps : 0 ≤ eps) (names : List String)
+theorem whole_assignment_exact_always {eps : α} (heps : EpsOk eps) (names : List String)
     (defaults mins maxs : Option (List (XR α))) (cb ch an : Bool) (w0 : World α)
     (e : init eps names defaults mins maxs cb ch an = .ok w0)
     (hmins : ∀ m, mins = some m → m.any XR.isNaN = false) (hmaxs : ∀ m, maxs = some m → m.any XR.isNaN = false)
@@ -465,18 +486,46 @@ theorem whole_assignment_exact_always {eps : α} (heps : 0 ≤ eps) (names : Lis
   step_setAll_exact heps _ (run_ok eps ops w0 (init_ok eps names defaults mins maxs cb ch an w0 e hmins hmaxs))
     k xs vw hv hacc hr
 
+/-- HIT FLAG BY ATTRIBUTE / BY KEY, ALL HISTORIES: from any constructed vector, after ANY history, an accepted
+assignment by attribute or by key to a known name stores the value moved to the nearest bound, moves nothing else, and
+sets the flag iff hit checking is on and the value was clipped — no conditioning on this path -/
+theorem attr_assignment_exact_always (eps : α) (names : List String)
+    (defaults mins maxs : Option (List (XR α))) (cb ch an : Bool) (w0 : World α)
+    (e : init eps names defaults mins maxs cb ch an = .ok w0)
+    (hmins : ∀ m, mins = some m → m.any XR.isNaN = false) (hmaxs : ∀ m, maxs = some m → m.any XR.isNaN = false)
+    (ops : List (Op α)) (k : Nat) (nm : String) (i : Nat) (x : XR α) (vw : View α)
+    (hv : (run eps w0 ops).view k = some vw) (hi : indexOf nm vw.names = some i) (byKey : Bool)
+    (hacc : (step eps (run eps w0 ops) (if byKey then .setKey k nm x else .setAttr k nm x)).2 = .ok) :
+    ∃ vw' lo hi, (step eps (run eps w0 ops) (if byKey then .setKey k nm x else .setAttr k nm x)).1.view k = some vw'
+      ∧ vw.mins[i]? = some lo ∧ vw.maxs[i]? = some hi
+      ∧ vw'.values = vw.values.set i (XR.clipNp x lo hi)
+      ∧ (vw'.hit = true ↔ vw.checkHit = true ∧ XR.clipNp x lo hi ≠ x) :=
+  step_setAttr_exact eps _ (run_ok eps ops w0 (init_ok eps names defaults mins maxs cb ch an w0 e hmins hmaxs))
+    k nm i x vw hv hi byKey hacc
+
+/-- RESET, ALL HISTORIES: after ANY history a reset of any live vector is accepted, restores the defaults and clears
+the flag -/
+theorem reset_exact_always {eps : α} (heps : EpsOk eps) (names : List String)
+    (defaults mins maxs : Option (List (XR α))) (cb ch an : Bool) (w0 : World α)
+    (e : init eps names defaults mins maxs cb ch an = .ok w0)
+    (hmins : ∀ m, mins = some m → m.any XR.isNaN = false) (hmaxs : ∀ m, maxs = some m → m.any XR.isNaN = false)
+    (ops : List (Op α)) (k : Nat) (vw : View α) (hv : (run eps w0 ops).view k = some vw) :
+    (step eps (run eps w0 ops) (.reset k)).2 = .ok
+      ∧ ∃ vw', (step eps (run eps w0 ops) (.reset k)).1.view k = some vw' ∧ vw'.values = vw.defaults ∧ vw'.hit = false :=
+  step_reset_exact heps _ (run_ok eps ops w0 (init_ok eps names defaults mins maxs cb ch an w0 e hmins hmaxs)) k vw hv
+
 end hit
 
 /-! ### clone and dictionary round-trip reproduce the full observable state as independent copies -/
 section copies
-variable {α : Type} [LinearOrder α] [AddCommGroup α] [IsOrderedAddMonoid α]
+variable {α : Type} [LinearOrder α] [Add α] [Sub α] [OfNat α 0]
 
 /-- `clone()` of any live vector in any reachable world: never rejected; the new vector shows exactly what
 the source shows (names, values, bounds, defaults, hit flag, all three option flags); every array of the new
 vector is freshly allocated (so disjoint from every array that existed); every existing vector, the source
 included, shows what it showed before; the world stays well formed (hence later operations on either side
 never reach the other: `step_frame`). -/
-theorem clone_spec {eps : α} (heps : 0 ≤ eps) (w : World α) (hw : WorldOk w) (k : Nat) (v : Vec)
+theorem clone_spec {eps : α} (heps : EpsOk eps) (w : World α) (hw : WorldOk w) (k : Nat) (v : Vec)
     (hk : w.vecs[k]? = some v) :
     ∃ w' c, step eps w (.clone k) = (w', .ok) ∧ w'.vecs = w.vecs ++ [c]
       ∧ w'.view w.vecs.length = w.view k
@@ -498,7 +547,7 @@ theorem clone_spec {eps : α} (heps : 0 ≤ eps) (w : World α) (hw : WorldOk w)
   rw [List.getElem?_concat_length, hk, Option.map_some, Option.map_some, vw]; rfl
 
 /-- the same for `Vector.from_dict(vect.to_dict())` -/
-theorem dictRT_spec {eps : α} (heps : 0 ≤ eps) (w : World α) (hw : WorldOk w) (k : Nat) (v : Vec)
+theorem dictRT_spec {eps : α} (heps : EpsOk eps) (w : World α) (hw : WorldOk w) (k : Nat) (v : Vec)
     (hk : w.vecs[k]? = some v) :
     ∃ w' c, step eps w (.dictRT k) = (w', .ok) ∧ w'.vecs = w.vecs ++ [c]
       ∧ w'.view w.vecs.length = w.view k
@@ -546,7 +595,7 @@ theorem pyCopy_spec (eps : α) (w : World α) (k : Nat) : step eps w (.pyCopy k 
 /-- COPIES, ALL HISTORIES: from any constructed vector, after ANY history (any mix of mutators, accessors, failing
 operations, copies), cloning or round-tripping ANY live vector is accepted and yields a vector that shows exactly
 the source's state in freshly allocated arrays, every other vector unchanged -/
-theorem copies_exact_always {eps : α} (heps : 0 ≤ eps) (names : List String)
+theorem copies_exact_always {eps : α} (heps : EpsOk eps) (names : List String)
     (defaults mins maxs : Option (List (XR α))) (cb ch an : Bool) (w0 : World α)
     (e : init eps names defaults mins maxs cb ch an = .ok w0)
     (hmins : ∀ m, mins = some m → m.any XR.isNaN = false) (hmaxs : ∀ m, maxs = some m → m.any XR.isNaN = false)
@@ -583,6 +632,8 @@ theorem readonly_preserves (eps : α) (w : World α) (t : Trans) (op : TOp α) (
   | sample => exact ⟨rfl, rfl⟩
   | logprior => exact ⟨rfl, rfl⟩
   | print => exact ⟨rfl, rfl⟩
+  | getItem nm => simp
+  | getAttr nm => simp
   | setItem nm x => simp [TOp.readOnly] at hro
   | setAttr nm x => simp [TOp.readOnly] at hro
   | reset => simp [TOp.readOnly] at hro
@@ -601,6 +652,8 @@ theorem tstep_ok (eps : α) (w : World α) (t : Trans) (op : TOp α) (hw : World
   | sample => exact hw
   | logprior => exact hw
   | print => exact hw
+  | getItem nm => simpa using hw
+  | getAttr nm => simpa using hw
   | setItem nm x =>
     simp only [tstep]
     split
@@ -653,6 +706,8 @@ theorem tstep_frozen (eps : α) (w : World α) (t : Trans) (op : TOp α) (hw : W
   | sample => rfl
   | logprior => rfl
   | print => rfl
+  | getItem nm => simp
+  | getAttr nm => simp
   | setItem nm x =>
     simp only [tstep]
     split
@@ -685,6 +740,8 @@ theorem tstep_rejected_identity (eps : α) (w : World α) (t : Trans) (op : TOp 
   | sample => rfl
   | logprior => rfl
   | print => rfl
+  | getItem nm => simp
+  | getAttr nm => simp
   | setItem nm x =>
     simp only [tstep] at h ⊢
     cases hp : w.vecs[t.params]? with
@@ -788,6 +845,8 @@ theorem tstep_frame (eps : α) (w : World α) (t : Trans) (op : TOp α) (hw : Wo
   | sample => rfl
   | logprior => rfl
   | print => rfl
+  | getItem nm => simp
+  | getAttr nm => simp
   | setItem nm x =>
     simp only [tstep]
     split
@@ -842,7 +901,10 @@ theorem mstep_readonly (eps : α) (m : MWorld α) (i : Nat) (op : TOp α) (hm : 
   unfold mstep
   simp only [hi]
   by_cases hk : t.kind = .plain
-  · cases op <;> simp [TOp.readOnly] at hro <;> simp [tstep, sync_plain eps m.world t hk]
+  · cases op with
+    | getItem nm => simp
+    | getAttr nm => simp
+    | _ => first | (simp [TOp.readOnly] at hro; done) | simp [tstep, sync_plain eps m.world t hk]
   · exact readonly_preserves eps m.world t op hm.world (hm.wf i t hi hk) hro
 
 /-- FRESH INSTANCE: constructing one more transform (any class) in a process that already holds instances — whatever
@@ -950,6 +1012,452 @@ theorem emptyM_ok : MOk (MWorld.empty : MWorld α) :=
 
 end instances
 
+/-! ### the transform classes: constructors, class table, `get_transform`, histories over several instances -/
+section classes
+variable {α : Type} [LinearOrder α] [Add α] [Sub α] [OfNat α 0]
+
+/-- BOUNDS NEVER CHANGE, ALL INTERLEAVINGS: after ANY history of transform operations (read-only calls, accepted and
+rejected assignments, resets) every vector of the transform has the names, bounds, defaults and flags it had -/
+theorem trun_frozen (eps : α) (t : Trans) (ops : List (TOp α)) : ∀ (w : World α), WorldOk w → ∀ j,
+    (ops.foldl (fun w op => (tstep eps w t op).1) w).frozen j = w.frozen j := by
+  induction ops with
+  | nil => intro w _ j; rfl
+  | cons op ops ih =>
+    intro w hw j
+    show (ops.foldl (fun w op => (tstep eps w t op).1) (tstep eps w t op).1).frozen j = w.frozen j
+    rw [ih _ (tstep_ok eps w t op hw) j, tstep_frozen eps w t op hw j]
+
+/-- CLASS CONSTRUCTORS, NO HYPOTHESIS ON THE BOUNDS: for every class of transform.py and every `mininu` / `minilam`
+(finite, infinite or NaN) the constructor either raises or yields a well-formed transform: two vectors (three for the
+classes that own an inner BoxCox2), each showing its defaults with the hit flag off. The "finite or infinite bounds"
+hypothesis of `tinit_ok` is discharged from the classes' own guards (`classSpecs_nanFree`). -/
+theorem cinit_ok (eps : α) (K : TConsts α) (cls : TClass) (a : CArgs α) (w : World α)
+    (e : cinit eps K cls a = .ok w) :
+    WorldOk w ∧ w.vecs.length = (if cls.kind = .plain then 2 else 3)
+      ∧ ∀ j, j < w.vecs.length → ∃ vw, w.view j = some vw ∧ vw.values = vw.defaults ∧ vw.hit = false := by
+  unfold cinit at e
+  split at e
+  · simp at e
+  · rename_i p c b es
+    obtain ⟨ap, ac, ab⟩ := tinit_accepts e
+    obtain ⟨np, nc, nb⟩ := classSpecs_nanFree es ap ab
+    have hkb := classSpecs_bc es
+    unfold tinit at e
+    split at e
+    · simp at e
+    · rename_i w1 e1
+      obtain ⟨ok1, l1, k1, vw1, f1, g1, h1⟩ := add_spec eps _ w1 p emptyWorld_ok e1 np.1 np.2
+      split at e
+      · simp at e
+      · rename_i w2 e2
+        obtain ⟨ok2, l2, k2, vw2, f2, g2, h2⟩ := add_spec eps _ w2 c ok1 e2 nc.1 nc.2
+        have l1' : w1.vecs.length = 1 := by simpa using l1
+        have fresh2 : ∀ j, j < w2.vecs.length → ∃ vw, w2.view j = some vw ∧ vw.values = vw.defaults ∧ vw.hit = false := by
+          intro j hj
+          have : j = 0 ∨ j = w1.vecs.length := by omega
+          rcases this with rfl | rfl
+          · exact ⟨vw1, by rw [k2 _ (by omega)]; exact f1, g1, h1⟩
+          · exact ⟨vw2, f2, g2, h2⟩
+        split at e
+        · simp only [Except.ok.injEq] at e; subst e
+          have hk : cls.kind = .plain := by
+            by_contra hne; have := hkb.mpr hne; simp at this
+          exact ⟨ok2, by rw [l2, l1', if_pos hk], fresh2⟩
+        · rename_i sb
+          have hk : cls.kind ≠ .plain := hkb.mp rfl
+          obtain ⟨ok3, l3, k3, vw3, f3, g3, h3⟩ := add_spec eps _ w sb ok2 e (nb sb rfl).1 (nb sb rfl).2
+          refine ⟨ok3, by rw [l3, l2, l1', if_neg hk], ?_⟩
+          intro j hj
+          by_cases hlast : j = w2.vecs.length
+          · subst hlast; exact ⟨vw3, f3, g3, h3⟩
+          · obtain ⟨vw, a1, a2, a3⟩ := fresh2 j (by omega)
+            exact ⟨vw, by rw [k3 j (by omega)]; exact a1, a2, a3⟩
+
+/-- the class table is coherent: exactly the classes whose forward / backward / jacobian write to an inner BoxCox2 are
+constructed with one, and the descriptor of such a transform keeps its three vectors apart -/
+theorem class_table_coherent (K : TConsts α) (cls : TClass) (a : CArgs α) (p c : Spec α) (b : Option (Spec α))
+    (e : classSpecs K cls a = .ok (p, c, b)) :
+    (b.isSome = true ↔ cls.kind ≠ .plain) ∧ cls.trans.wf ∧ TClass.ofName? cls.name = some cls := by
+  refine ⟨classSpecs_bc e, ⟨by show (2 : Nat) ≠ 0; decide, by show (2 : Nat) ≠ 1; decide⟩, ?_⟩
+  cases cls <;> decide
+
+/-- READ-ONLY USES, EVERY CLASS, ALL INTERLEAVINGS, NO HYPOTHESIS: for every class and constructor arguments the
+constructor accepts, after ANY history of read-only calls (forward, backward, jacobian, sampling, scoring, printing,
+item / attribute reads) and accepted or rejected assignments, one more read-only call leaves everything the parameter
+vector and the constant vector show exactly as it was, and the names / bounds / defaults / flags of all the transform's
+vectors are still those the constructor gave them -/
+theorem class_readonly_always (eps : α) (K : TConsts α) (cls : TClass) (a : CArgs α) (w : World α)
+    (e : cinit eps K cls a = .ok w) (history : List (TOp α)) (op : TOp α) (hro : op.readOnly = true) :
+    let t := cls.trans
+    let w' := history.foldl (fun w op => (tstep eps w t op).1) w
+    WorldOk w' ∧ (tstep eps w' t op).1.view 0 = w'.view 0 ∧ (tstep eps w' t op).1.view 1 = w'.view 1
+      ∧ ∀ j, (tstep eps w' t op).1.frozen j = w.frozen j := by
+  intro t w'
+  have hw : WorldOk w := (cinit_ok eps K cls a w e).1
+  have hw' : WorldOk w' := trun_ok eps t history w hw
+  obtain ⟨r0, r1⟩ := readonly_preserves eps w' t op hw'
+    ⟨(by show (2 : Nat) ≠ 0; decide), (by show (2 : Nat) ≠ 1; decide)⟩ hro
+  refine ⟨hw', r0, r1, ?_⟩
+  intro j
+  rw [tstep_frozen eps w' t op hw' j]
+  exact trun_frozen eps t history w hw j
+
+/-- `get_transform(name, **kwargs)`: when it returns, the object is a well-formed transform of the named class whose
+vectors have exactly the names / bounds / defaults / flags of `Class(**constructor arguments)` — the remaining keywords
+only assigned values (clipped like any assignment by key); an unknown name, a constructor guard or a rejected
+assignment yields no object -/
+theorem getTransform_ok (eps : α) (K : TConsts α) (name : String) (kw : List (String × XR α)) (cls : TClass)
+    (w : World α) (e : getTransform eps K name kw = .ok (cls, w)) :
+    TClass.ofName? name = some cls ∧ WorldOk w
+      ∧ ∃ w0, cinit eps K cls (gtArgs K cls kw) = .ok w0 ∧ w.vecs.length = w0.vecs.length
+          ∧ ∀ j, w.frozen j = w0.frozen j := by
+  unfold getTransform at e
+  split at e
+  · simp at e
+  · rename_i cls' hn
+    split at e
+    · simp at e
+    · rename_i w0 e0
+      split at e
+      · simp at e
+      · rename_i w1 e1
+        simp only [Except.ok.injEq, Prod.mk.injEq] at e
+        obtain ⟨rfl, rfl⟩ := e
+        obtain ⟨o, l, f⟩ := gtAssignAll_ok _ (cinit_ok eps K cls' _ w0 e0).1 e1
+        exact ⟨hn, o, w0, e0, l, f⟩
+
+/-- … and the same after `get_transform`: whatever keywords built the object, after ANY history a read-only call leaves
+params and constants as they were and the bounds are those of `Class(**constructor arguments)` -/
+theorem getTransform_readonly_always (eps : α) (K : TConsts α) (name : String) (kw : List (String × XR α))
+    (cls : TClass) (w : World α) (e : getTransform eps K name kw = .ok (cls, w)) (history : List (TOp α))
+    (op : TOp α) (hro : op.readOnly = true) :
+    let t := cls.trans
+    let w' := history.foldl (fun w op => (tstep eps w t op).1) w
+    WorldOk w' ∧ (tstep eps w' t op).1.view 0 = w'.view 0 ∧ (tstep eps w' t op).1.view 1 = w'.view 1
+      ∧ ∃ w0, cinit eps K cls (gtArgs K cls kw) = .ok w0 ∧ ∀ j, (tstep eps w' t op).1.frozen j = w0.frozen j := by
+  intro t w'
+  obtain ⟨_, hw, w0, e0, _, f0⟩ := getTransform_ok eps K name kw cls w e
+  have hw' : WorldOk w' := trun_ok eps t history w hw
+  obtain ⟨r0, r1⟩ := readonly_preserves eps w' t op hw'
+    ⟨(by show (2 : Nat) ≠ 0; decide), (by show (2 : Nat) ≠ 1; decide)⟩ hro
+  refine ⟨hw', r0, r1, w0, e0, ?_⟩
+  intro j
+  rw [tstep_frozen eps w' t op hw' j]
+  show (history.foldl (fun w op => (tstep eps w t op).1) w).frozen j = _
+  rw [trun_frozen eps t history w hw j, f0 j]
+
+/-- FRESH INSTANCE BY CLASS, NO HYPOTHESIS: `Class(**args)` in a process that already holds instances keeps the instance
+invariant, leaves every existing vector as it was and starts from the constructor defaults with the hit flag off -/
+theorem maddC_spec (eps : α) (K : TConsts α) (m m' : MWorld α) (cls : TClass) (a : CArgs α) (hm : MOk m)
+    (e : maddC eps K m cls a = .ok m') :
+    MOk m' ∧ (∀ j, j < m.world.vecs.length → m'.world.view j = m.world.view j)
+      ∧ (∀ j, m.world.vecs.length ≤ j → j < m'.world.vecs.length →
+          ∃ vw, m'.world.view j = some vw ∧ vw.values = vw.defaults ∧ vw.hit = false)
+      ∧ m'.insts.length = m.insts.length + 1
+      ∧ (∀ (i : Nat) (t : Trans), m.insts[i]? = some t → m'.insts[i]? = some t) := by
+  unfold maddC at e
+  split at e
+  · simp at e
+  · rename_i p c b es
+    obtain ⟨ap, ac, ab⟩ := madd_accepts e (classSpecs_bc es)
+    obtain ⟨np, nc, nb⟩ := classSpecs_nanFree es ap ab
+    obtain ⟨h1, h2, h3, h4⟩ := madd_spec eps m m' cls.kind p c b hm e np nc nb
+    refine ⟨h1, h2, h3, h4, ?_⟩
+    · intro i t hi
+      have hins : ∃ t', m'.insts = m.insts ++ [t'] := by
+        unfold madd at e
+        simp only at e
+        split at e
+        · simp at e
+        · split at e
+          · simp at e
+          · split at e
+            · simp only [Except.ok.injEq] at e; subst e; exact ⟨_, rfl⟩
+            · split at e
+              · simp at e
+              · split at e
+                · simp at e
+                · simp only [Except.ok.injEq] at e; subst e; exact ⟨_, rfl⟩
+      obtain ⟨t', ht'⟩ := hins
+      rw [ht', List.getElem?_append_left (List.getElem?_eq_some_iff.mp hi).1]; exact hi
+
+/-- every event of a multi-instance history — a construction by class (accepted or rejected) or an operation on one
+instance — keeps the instance invariant; a rejected construction returns the very same process -/
+theorem mstepC_ok (eps : α) (K : TConsts α) (m : MWorld α) (op : MOp α) (hm : MOk m) :
+    MOk (mstepC eps K m op).1 ∧ (∀ e, (mstepC eps K m op).2 = .rejected e → ∀ cls a, op = .new cls a →
+      (mstepC eps K m op).1 = m) := by
+  cases op with
+  | new cls a =>
+    simp only [mstepC]
+    cases h : maddC eps K m cls a with
+    | error err => exact ⟨hm, fun _ _ _ _ _ => rfl⟩
+    | ok m' => exact ⟨(maddC_spec eps K m m' cls a hm h).1, fun e he => by simp at he⟩
+  | «at» i o => exact ⟨mstep_ok eps m i o hm, fun e _ cls a h => by cases h⟩
+
+/-- INSTANCE INVARIANT, ALL HISTORIES -/
+theorem mrun_ok (eps : α) (K : TConsts α) (ops : List (MOp α)) : ∀ (m : MWorld α), MOk m → MOk (mrun eps K m ops) := by
+  induction ops with
+  | nil => intro m hm; exact hm
+  | cons op ops ih => intro m hm; exact ih _ (mstepC_ok eps K m op hm).1
+
+/-- INDEPENDENT INSTANCES, ALL HISTORIES: whatever happens in the process — any number of constructions of any class
+(accepted or rejected), any operations on OTHER instances, in any order — an instance that is not addressed shows,
+on every one of its vectors, exactly what it showed -/
+theorem instances_independent_always (eps : α) (K : TConsts α) (ops : List (MOp α)) :
+    ∀ (m : MWorld α), MOk m → ∀ (i' : Nat) (t' : Trans), m.insts[i']? = some t' →
+      (∀ i o, MOp.at i o ∈ ops → i ≠ i') →
+      (mrun eps K m ops).insts[i']? = some t'
+        ∧ ∀ j ∈ t'.idx, (mrun eps K m ops).world.view j = m.world.view j := by
+  induction ops with
+  | nil => intro m _ i' t' h _; exact ⟨h, fun _ _ => rfl⟩
+  | cons op ops ih =>
+    intro m hm i' t' hi' hno
+    have hm1 := (mstepC_ok eps K m op hm).1
+    have hno' : ∀ i o, MOp.at i o ∈ ops → i ≠ i' := fun i o h => hno i o (List.mem_cons_of_mem _ h)
+    have key : (mstepC eps K m op).1.insts[i']? = some t'
+        ∧ ∀ j ∈ t'.idx, (mstepC eps K m op).1.world.view j = m.world.view j := by
+      cases op with
+      | new cls a =>
+        simp only [mstepC]
+        cases h : maddC eps K m cls a with
+        | error err => exact ⟨hi', fun _ _ => rfl⟩
+        | ok m' =>
+          obtain ⟨_, h2, _, _, h5⟩ := maddC_spec eps K m m' cls a hm h
+          exact ⟨h5 i' t' hi', fun j hj => h2 j (hm.lt i' t' hi' j hj)⟩
+      | «at» i o =>
+        have hne : i ≠ i' := hno i o (List.mem_cons_self ..)
+        refine ⟨?_, fun j hj => mstep_independent eps m i i' o hm t' hi' hne j hj⟩
+        simp only [mstepC, mstep]
+        split <;> exact hi'
+    obtain ⟨k1, k2⟩ := key
+    obtain ⟨r1, r2⟩ := ih _ hm1 i' t' k1 hno'
+    exact ⟨r1, fun j hj => by
+      show (mrun eps K (mstepC eps K m op).1 ops).world.view j = _
+      rw [r2 j hj, k2 j hj]⟩
+
+end classes
+
+/-! ### an empty vector is inert (why the shared default `Vector([])` of `Transform.__init__` is not observable) -/
+section noname
+variable {α : Type} [LinearOrder α] [Add α] [Sub α] [OfNat α 0]
+
+/-- A VECTOR WITHOUT NAMES SHOWS THE SAME THING WHATEVER IS DONE: every operation of the state machine, addressed to it
+or to any other vector, accepted or rejected, leaves the view of a no-name vector (hit flag off, as after construction)
+exactly as it was. `Transform.__init__(self, name, params=Vector([]), constants=Vector([]))` evaluates its default
+arguments once, so all transforms without parameters / constants share ONE empty vector object; the model gives each
+instance its own — by this theorem no history can tell the difference. -/
+theorem noname_inert (eps : α) (w : World α) (hw : WorldOk w) (k : Nat) (v : Vec) (hk : w.vecs[k]? = some v)
+    (hn : v.names = []) (hh : v.hit = false) (op : Op α) :
+    (step eps w op).1.view k = w.view k ∧ ∃ v', (step eps w op).1.vecs[k]? = some v' ∧ v'.names = [] ∧ v'.hit = false := by
+  have hklt : k < w.vecs.length := (List.getElem?_eq_some_iff.mp hk).1
+  have ok := hw.each k v hk
+  have hn0 : v.n = 0 := by simp [Vec.n, hn]
+  have e1 : w.store.cells v.values = [] := List.eq_nil_of_length_eq_zero (by rw [ok.len_values, hn0])
+  have e2 : w.store.cells v.mins = [] := List.eq_nil_of_length_eq_zero (by rw [ok.len_mins, hn0])
+  have e3 : w.store.cells v.maxs = [] := List.eq_nil_of_length_eq_zero (by rw [ok.len_maxs, hn0])
+  have e4 : w.store.cells v.defaults = [] := List.eq_nil_of_length_eq_zero (by rw [ok.len_defaults, hn0])
+  have any3_nil : ∀ (p : XR α → XR α → XR α → Bool) (xs hi : List (XR α)), any3 p xs [] hi = false := by
+    intro p xs hi; cases xs <;> simp [any3]
+  -- an accepted assignment that keeps the names and ends with the hit flag off shows the same view
+  have viewEq : ∀ (s' : Store α) (v' : Vec), Assign w.store v s' v' → VecOk s' v' → v'.hit = false →
+      C12.view s' v' = C12.view w.store v := by
+    intro s' v' a ok' hh'
+    have hn0' : v'.n = 0 := by simp [Vec.n, a.names, hn]
+    have f1 : s'.cells v'.values = [] := List.eq_nil_of_length_eq_zero (by rw [ok'.len_values, hn0'])
+    have f2 : s'.cells v'.mins = [] := List.eq_nil_of_length_eq_zero (by rw [ok'.len_mins, hn0'])
+    have f3 : s'.cells v'.maxs = [] := List.eq_nil_of_length_eq_zero (by rw [ok'.len_maxs, hn0'])
+    have f4 : s'.cells v'.defaults = [] := List.eq_nil_of_length_eq_zero (by rw [ok'.len_defaults, hn0'])
+    simp only [C12.view, View.mk.injEq]
+    exact ⟨a.names, by rw [f1, e1], by rw [f2, e2], by rw [f3, e3], by rw [f4, e4], by rw [hh', hh],
+      a.checkBounds, a.checkHit, a.acceptNan⟩
+  -- the generic case of a mutator
+  have upd : ∀ (f : Store α → Vec → (Store α × Vec) × Out),
+      (∀ s' v', f w.store v = ((s', v'), .ok) → Assign w.store v s' v' ∧ VecOk s' v' ∧ v'.hit = false) →
+      (w.update k f).1.view k = w.view k
+        ∧ ∃ v', (w.update k f).1.vecs[k]? = some v' ∧ v'.names = [] ∧ v'.hit = false := by
+    intro f hf
+    simp only [World.update, hk]
+    rcases hfe : f w.store v with ⟨⟨s', v'⟩, o⟩
+    cases o with
+    | rejected e' => exact ⟨rfl, v, hk, hn, hh⟩
+    | ok =>
+      obtain ⟨a, ok', hh'⟩ := hf s' v' hfe
+      refine ⟨?_, v', by simp [hklt], by rw [a.names, hn], hh'⟩
+      simp only [World.view, List.getElem?_set_self hklt, hk, Option.map_some, viewEq s' v' a ok' hh']
+  have setAllCase : ∀ xs : List (XR α), ∀ s' v', setAll eps w.store v xs = ((s', v'), .ok) →
+      Assign w.store v s' v' ∧ VecOk s' v' ∧ v'.hit = false := by
+    intro xs s' v' e
+    obtain ⟨a, ok'⟩ := setAll_effect eps ok xs e
+    refine ⟨a, ok', ?_⟩
+    unfold setAll at e
+    split at e
+    · simp at e
+    · simp only [Prod.mk.injEq, and_true] at e
+      obtain ⟨_, rfl⟩ := e
+      simp [hitAll, e2, any3_nil]
+  by_cases hne : k = op.target
+  · cases op with
+    | setAttr j nm x =>
+      simp only [Op.target] at hne; subst hne
+      exact upd _ fun s' v' e => by
+        have : setAttr w.store v nm x = ((w.store, v), .ok) := by simp [setAttr, hn, indexOf]
+        rw [this] at e
+        simp only [Prod.mk.injEq, and_true] at e; obtain ⟨rfl, rfl⟩ := e
+        exact ⟨Assign.refl _ _, ok, hh⟩
+    | setKey j nm x =>
+      simp only [Op.target] at hne; subst hne
+      exact upd _ fun s' v' e => by simp [setKey, hn, indexOf] at e
+    | setAll j xs =>
+      simp only [Op.target] at hne; subst hne
+      exact upd _ (setAllCase xs)
+    | reset j =>
+      simp only [Op.target] at hne; subst hne
+      exact upd _ (setAllCase _)
+    | clone j =>
+      simp only [Op.target] at hne; subst hne
+      refine ⟨(spawn_keeps_all eps w k hw k hklt).1, ?_⟩
+      have hl := step_length_le eps w (.clone k)
+      have hv := (spawn_keeps_all eps w k hw k hklt).1
+      simp only [World.view, hk, Option.map_some] at hv
+      cases hv' : (step eps w (.clone k)).1.vecs[k]? with
+      | none => simp [hv'] at hv
+      | some v' =>
+        simp only [hv', Option.map_some, Option.some.injEq] at hv
+        have := congrArg View.names hv
+        have h2 := congrArg View.hit hv
+        simp only [C12.view] at this h2
+        exact ⟨v', rfl, by rw [this, hn], by rw [h2, hh]⟩
+    | dictRT j =>
+      simp only [Op.target] at hne; subst hne
+      refine ⟨(spawn_keeps_all eps w k hw k hklt).2, ?_⟩
+      have hv := (spawn_keeps_all eps w k hw k hklt).2
+      simp only [World.view, hk, Option.map_some] at hv
+      cases hv' : (step eps w (.dictRT k)).1.vecs[k]? with
+      | none => simp [hv'] at hv
+      | some v' =>
+        simp only [hv', Option.map_some, Option.some.injEq] at hv
+        have := congrArg View.names hv
+        have h2 := congrArg View.hit hv
+        simp only [C12.view] at this h2
+        exact ⟨v', rfl, by rw [this, hn], by rw [h2, hh]⟩
+    | getKey j nm => simp only [step, peek_fst]; exact ⟨trivial, v, hk, hn, hh⟩
+    | getAttr j nm => simp only [step, peek_fst]; exact ⟨trivial, v, hk, hn, hh⟩
+    | read j => simp only [step, peek_fst]; exact ⟨trivial, v, hk, hn, hh⟩
+    | setBad j => simp only [step, peek_fst]; exact ⟨trivial, v, hk, hn, hh⟩
+    | pyCopy j works =>
+      simp only [Op.target] at hne; subst hne
+      cases works
+      · simp only [step, Bool.false_eq_true, if_false, peek_fst]; exact ⟨trivial, v, hk, hn, hh⟩
+      · rw [pyCopy_spec]
+        refine ⟨(spawn_keeps_all eps w k hw k hklt).1, ?_⟩
+        have hv := (spawn_keeps_all eps w k hw k hklt).1
+        simp only [World.view, hk, Option.map_some] at hv
+        cases hv' : (step eps w (.clone k)).1.vecs[k]? with
+        | none => simp [hv'] at hv
+        | some v' =>
+          simp only [hv', Option.map_some, Option.some.injEq] at hv
+          have := congrArg View.names hv
+          have h2 := congrArg View.hit hv
+          simp only [C12.view] at this h2
+          exact ⟨v', rfl, by rw [this, hn], by rw [h2, hh]⟩
+  · have hv := step_frame eps w op hw k hklt hne
+    refine ⟨hv, ?_⟩
+    simp only [World.view, hk, Option.map_some] at hv
+    cases hv' : (step eps w op).1.vecs[k]? with
+    | none => simp [hv'] at hv
+    | some v' =>
+      simp only [hv', Option.map_some, Option.some.injEq] at hv
+      have := congrArg View.names hv
+      have h2 := congrArg View.hit hv
+      simp only [C12.view] at this h2
+      exact ⟨v', rfl, by rw [this, hn], by rw [h2, hh]⟩
+
+end noname
+
+/-! ### the margin arithmetic: exact or rounded, the theorems only need `EpsOk` -/
+section rounding
+
+/-- in an ordered additive group every non-negative margin satisfies `EpsOk` (the setting of the earlier statements) -/
+theorem epsOk_of_nonneg {α : Type} [LinearOrder α] [AddCommGroup α] [IsOrderedAddMonoid α] {eps : α} (h : 0 ≤ eps) :
+    EpsOk eps := EpsOk.of_nonneg h
+
+/-- ROUNDED ARITHMETIC: let `+` and `-` be the exact operations of an ordered group followed by ANY rounding that is
+monotone and leaves representable values alone (IEEE-754 round-to-nearest, toward zero, up, down …), on the type of
+representable values. A non-negative margin still satisfies `EpsOk`: `mins - EPS ≤ mins` and `maxs ≤ maxs + EPS` survive
+rounding (possibly as equalities: `1e8 + 1e-10 == 1e8`). Hence every theorem of this file stated with `EpsOk` holds for
+float-like arithmetic, not only for exact arithmetic. -/
+theorem epsOk_of_rounding {β : Type} [LinearOrder β] [AddCommGroup β] [IsOrderedAddMonoid β] (R : Rounding β)
+    (eps : R.Fl) (h : (0 : β) ≤ eps.1) : EpsOk eps := EpsOk.of_rounding R eps h
+
+/-- the hit-flag clause for whole-vector assignment under rounded arithmetic (instance of `setAll_hit_exact`) -/
+theorem setAll_hit_exact_rounded {β : Type} [LinearOrder β] [AddCommGroup β] [IsOrderedAddMonoid β] (R : Rounding β)
+    (eps : R.Fl) (h : (0 : β) ≤ eps.1) {s s' : Store R.Fl} {v v' : Vec} (hv : VecOk s v) (xs : List (XR R.Fl))
+    (e : setAll eps s v xs = ((s', v'), .ok))
+    (hr : all3 (XR.inRegion eps) xs (s.cells v.mins) (s.cells v.maxs) = true) :
+    s'.cells v'.values = clipAll xs (s.cells v.mins) (s.cells v.maxs)
+      ∧ (v'.hit = true ↔ v.checkHit = true ∧ s'.cells v'.values ≠ xs) := by
+  obtain ⟨h1, _, h3⟩ := setAll_hit_exact (epsOk_of_rounding R eps h) hv xs e hr
+  exact ⟨h1, h3⟩
+
+/-- clones / dictionary round-trips under rounded arithmetic (instance of `clone_spec` / `dictRT_spec`): the
+constructor's own hit test `mins - EPS`, `maxs + EPS` never rejects the data of a live vector -/
+theorem copies_exact_rounded {β : Type} [LinearOrder β] [AddCommGroup β] [IsOrderedAddMonoid β] (R : Rounding β)
+    (eps : R.Fl) (h : (0 : β) ≤ eps.1) (w : World R.Fl) (hw : WorldOk w) (k : Nat) (v : Vec)
+    (hk : w.vecs[k]? = some v) (viaDict : Bool) :
+    ∃ w' c, step eps w (if viaDict then .dictRT k else .clone k) = (w', .ok) ∧ w'.vecs = w.vecs ++ [c]
+      ∧ w'.view w.vecs.length = w.view k ∧ (∀ j, j < w.vecs.length → w'.view j = w.view j) ∧ WorldOk w' := by
+  cases viaDict
+  · obtain ⟨w', c, a1, a2, a3, _, a5, a6⟩ := clone_spec (epsOk_of_rounding R eps h) w hw k v hk
+    exact ⟨w', c, a1, a2, a3, a5, a6⟩
+  · obtain ⟨w', c, a1, a2, a3, _, a5, a6⟩ := dictRT_spec (epsOk_of_rounding R eps h) w hw k v hk
+    exact ⟨w', c, a1, a2, a3, a5, a6⟩
+
+end rounding
+
+/-! ### the two hypotheses the theorems carry are needed (counterexamples on the model; the harness probes the real
+code at the same excluded points: streams `margin` and `nanbounds`) -/
+section needed
+
+/-- one name, bounds [0, 10], hit checking on -/
+def cexW : World Int :=
+  match init (1 : Int) ["a"] (some [.fin 5]) (some [.fin 0]) (some [.fin 10]) true true false with
+  | .ok w => w
+  | .error _ => ⟨Store.empty, []⟩
+
+/-- one name, `mins=[nan]`, `accept_nan=True` -/
+def cexN : World Int :=
+  match init (1 : Int) ["a"] none (some [.nan]) none true false true with
+  | .ok w => w
+  | .error _ => ⟨Store.empty, []⟩
+
+/-- THE CONDITIONING OF THE HIT CLAUSE IS NEEDED: inside the margin (here `-1` against the bound `0` with margin `1`)
+a whole-vector assignment is accepted and CLIPPED (`0` is stored) while the flag stays off — `step_setAll_exact`
+without `inRegion` is false. (The attribute path has no margin: `setAttr_hit_exact` carries no such hypothesis.) -/
+theorem inRegion_needed :
+    WorldOk cexW ∧ ∃ vw vw', cexW.view 0 = some vw ∧ (step 1 cexW (.setAll 0 [.fin (-1)])).2 = .ok
+      ∧ (step 1 cexW (.setAll 0 [.fin (-1)])).1.view 0 = some vw'
+      ∧ all3 (XR.inRegion 1) [.fin (-1)] vw.mins vw.maxs = false
+      ∧ ¬ (vw'.hit = true ↔ vw.checkHit = true ∧ vw'.values ≠ [.fin (-1)]) := by
+  refine ⟨init_ok (1 : Int) ["a"] (some [.fin 5]) (some [.fin 0]) (some [.fin 10]) true true false cexW (by rfl)
+    (by intro m h; cases h; decide) (by intro m h; cases h; decide), ?_⟩
+  refine ⟨⟨["a"], [.fin 5], [.fin 0], [.fin 10], [.fin 5], false, true, true, false⟩,
+    ⟨["a"], [.fin 0], [.fin 0], [.fin 10], [.fin 5], false, true, true, false⟩, by decide, by decide, by decide,
+    by decide, by decide⟩
+
+/-- THE "FINITE OR INFINITE BOUNDS" HYPOTHESIS IS NEEDED: with `accept_nan=True` the constructor accepts a NaN bound
+(`__checkvalues__` lets it through), and the resulting vector is NOT well formed: its bounds are not an interval and
+its default is `clip(0, nan, inf) = nan` -/
+theorem nanFree_bounds_needed :
+    init (1 : Int) ["a"] none (some [.nan]) none true false true = .ok cexN ∧ ¬ WorldOk cexN
+      ∧ (cexN.view 0).map (fun v => (v.mins, v.defaults, v.ok)) = some ([.nan], [.nan], false) := by
+  refine ⟨by rfl, ?_, by decide⟩
+  intro hw
+  have hb := (hw.each 0 ⟨["a"], 3, 0, 1, 2, false, true, false, true⟩ (by decide)).bounds
+  revert hb
+  decide
+
+end needed
+
 /-! ### the hypotheses are satisfiable: concrete, non-trivial instances over `Int` -/
 section examples
 
@@ -1009,6 +1517,67 @@ example : (match exM with
     | .ok m => (m.insts.length, m.world.view 1 |>.map (·.values), m.world.view 3 |>.map (·.values),
                 m.world.view 5 |>.map (·.values))
     | .error _ => (0, none, none, none)) = (3, some [.fin 7], some [.nan], some [.nan]) := by decide
+
+/-- a float-like rounding on `Int`: exact below 8 in magnitude, multiples of 4 beyond — `12 - 1` rounds to `8` and
+`12 + 1` is absorbed (`= 12`), as `1e8 + 1e-10 == 1e8` in double precision; `EpsOk 1` holds all the same -/
+def exR : Rounding Int where
+  rnd := fun x => if 8 ≤ x ∨ x ≤ -8 then 4 * (x / 4) else x
+  mono := by intro x y h; split_ifs <;> omega
+  idem := by intro x; split_ifs <;> omega
+  zero := by decide
+
+example : EpsOk (exR.toFl 1 (by decide)) := epsOk_of_rounding exR _ (by decide)
+example : (exR.toFl 12 (by decide) + exR.toFl 1 (by decide)).1 = 12
+    ∧ (exR.toFl 12 (by decide) - exR.toFl 1 (by decide)).1 = 8 := by decide
+
+/-- transform.py's literals, scaled by 10 so that they are integers (EPS and 1e-5 become 1) -/
+def exK : TConsts Int := ⟨1, 1, 1, 0, 10, 30, 50, 100, -10, -30, -50, -100, -200⟩
+
+/-- `cinit_ok` / `class_readonly_always`: BoxCox1lam(mininu=2) is accepted; after `nu = 7`, `lam = 90` (clipped to 3.0)
+and a forward call, the inner vector is re-synced and params / constants are untouched -/
+def exC : World Int :=
+  match cinit (1 : Int) exK .boxcox1lam ⟨.fin 2, .fin 0⟩ with
+  | .ok w => [TOp.setItem "nu" (.fin 7), .setAttr "lam" (.fin 90), .getItem "zz", .forward].foldl
+      (fun w op => (tstep 1 w TClass.boxcox1lam.trans op).1) w
+  | .error _ => ⟨Store.empty, []⟩
+
+example : (exC.vecs.length, exC.view 0 |>.map (·.values), exC.view 1 |>.map (·.values), exC.view 2 |>.map (·.values))
+    = (3, some [.fin 30], some [.fin 7], some [.fin 7, .fin 30]) := by decide
+example : (treadItem exC TClass.boxcox1lam.trans "nu", (tstep 1 exC TClass.boxcox1lam.trans (.getItem "zz")).2,
+      (tstep 1 exC TClass.boxcox1lam.trans (.getAttr "lam")).2)
+    = (some (.fin 7), .rejected .unknownKey, .ok) := by decide
+
+/-- the constructor guards: `minilam < -3` and a NaN `mininu` are rejected, by every class that has the argument -/
+example : (cinit (1 : Int) exK .boxcox2 ⟨.fin 2, .fin (-40)⟩).toOption.isNone
+    ∧ (cinit (1 : Int) exK .boxcox1nu ⟨.nan, .fin 0⟩).toOption.isNone
+    ∧ (cinit (1 : Int) exK .log ⟨.nan, .fin 0⟩).toOption.isNone
+    ∧ (cinit (1 : Int) exK .log ⟨.pinf, .nan⟩).toOption.isSome := by decide
+
+/-- `getTransform_ok`: constructor arguments are split off, parameter and constant values assigned (clipped), foreign
+keywords skipped; an unknown name or a NaN for a parameter yields no object -/
+example : ((getTransform (1 : Int) exK "BoxCox1nu"
+        ([("mininu", .fin 2), ("nu", .fin 0), ("lam", .fin 20), ("zz", .nan)] : List (String × XR Int))).toOption.map
+      fun r => (r.1, r.2.view 0 |>.map (·.values), r.2.view 1 |>.map (·.values)))
+    = some (.boxcox1nu, some [.fin 2], some [.fin 20])
+    ∧ (getTransform (1 : Int) exK "Nope" []).toOption.isNone
+    ∧ (getTransform (1 : Int) exK "Log" ([("nu", .nan)] : List (String × XR Int))).toOption.isNone
+    ∧ (getTransform (1 : Int) exK "Logit" ([("mininu", .nan)] : List (String × XR Int))).toOption.isSome := by decide
+
+/-- `mrun_ok` / `instances_independent_always`: two Manly instances and a LogSinh, a rejected BoxCox2 in between, writes
+on instance 0 only: instances 1 and 2 still show their constructor state -/
+def exMR : MWorld Int := mrun (1 : Int) exK MWorld.empty
+  [.new .manly (CArgs.default exK), .new .manly (CArgs.default exK), .at 0 (.setItem "xmax" (.fin 7)),
+   .new .boxcox2 ⟨.fin 1, .fin (-50)⟩, .new .logsinh (CArgs.default exK), .at 0 (.setParams [.fin 99]), .at 0 .forward]
+
+example : (exMR.insts.length, exMR.world.view 0 |>.map (·.values), exMR.world.view 1 |>.map (·.values))
+    = (3, some [.fin 50], some [.fin 7]) := by decide
+example : (exMR.world.view 3 |>.map (·.values), exMR.world.view 5 |>.map (·.values)) = (some [.nan], some [.nan]) := by
+  decide
+
+/-- `noname_inert`: the empty vector of an Identity transform after assignments addressed to it -/
+example : (match cinit (1 : Int) exK .identity (CArgs.default exK) with
+    | .ok w => decide ((run 1 w [.setAll 1 [], .setAttr 1 "zz" (XR.fin 3), .reset 1, .setAll 1 [XR.fin 1]]).view 1 = w.view 1)
+    | .error _ => false) = true := by decide
 
 end examples
 
